@@ -68,6 +68,11 @@ def cases(tier, seed):
     out = [(cid, dict(shape=SHAPE_OF[cid], kw=dict(kw), split=split, coupled=coupled)) for cid, kw, split, coupled in lst]
     # the same split asked for in other words: interval size spelled differently, prices as a dict of arrays instead of a DataFrame
     # a fixed window given as a date that is a grid point: the split set-up pins the same steps as the unsplit one (C15's machinery)
+    # "the value is the sum of the interval optima": what SplitOptimProblem.optimize() returns is the concatenation of the solver's answers for
+    # the interval problems, each interval solved on its own rows (C03's recorder machinery; prices symbolic, so intervals with equal costs and
+    # bounds but different rows are among the paths)
+    out.append(('result_is_concatenation_of_interval_optima_two_node', dict(shape='two_node', kw=dict(T=4, freq='12h'), split='d', coupled=('c03', 'split'))))
+    out.append(('result_is_concatenation_of_interval_optima_take_in_one_interval', dict(shape='contract_take', kw=dict(T=4, take=(2, 4)), split='2h', coupled=('c03', 'split'))))
     out.append(('fixed_window_date_on_grid_point', dict(shape='two_node', kw=dict(T=4), split='2h', coupled=('c15', ['date', 2, 0]))))
     out.append(('interval_size_spelled_in_minutes', dict(shape='two_node', kw=dict(T=4), split='2h', coupled=('forms', 'size', '120min'))))
     out.append(('interval_size_day_vs_24h', dict(shape='uncoupled', kw=dict(T=4, freq='12h', wacc=True), split='d', coupled=('forms', 'size', '24h'))))
@@ -222,6 +227,11 @@ def run_case(case_id, tier, seed, shape, kw, split, coupled):
         return res
     if isinstance(coupled, (tuple, list)) and coupled[0] == 'forms':
         return run_forms(rec, seed, shape, dict(kw), split, coupled[1], coupled[2])
+    if isinstance(coupled, (tuple, list)) and coupled[0] == 'c03':
+        from . import c03
+        res = c03.run_case(case_id, tier, seed, kind=coupled[1], shape=shape, kw=dict(kw), split=split)
+        res['prop'] = PROP
+        return res
     eao = lift.import_eao()
     kw = dict(kw)
     shape_b = shape
@@ -275,6 +285,9 @@ def run_case(case_id, tier, seed, shape, kw, split, coupled):
 
 def observe(case, kwargs, env, rq):
     from .. import obs
+    if isinstance(kwargs.get('coupled'), (tuple, list)) and kwargs['coupled'][0] == 'c03':
+        from . import c03
+        return c03.observe(case, dict(kind=kwargs['coupled'][1], shape=kwargs['shape'], kw=kwargs['kw'], split=kwargs['split']), env, rq)
     if isinstance(kwargs.get('coupled'), (tuple, list)) and kwargs['coupled'][0] == 'c15':
         from . import c15
         return c15.observe(case, dict(shape=kwargs['shape'], kw=kwargs['kw'], win=list(kwargs['coupled'][1]), split=kwargs['split']), env, rq)
@@ -317,6 +330,9 @@ def observe(case, kwargs, env, rq):
 
 def judge(case, kwargs, cand, ans):
     info = cand.get('info', {})
+    if isinstance(kwargs.get('coupled'), (tuple, list)) and kwargs['coupled'][0] == 'c03':
+        from . import c03
+        return c03.judge(case, dict(kind=kwargs['coupled'][1], shape=kwargs['shape'], kw=kwargs['kw'], split=kwargs['split']), cand, ans)
     if cand.get('form') == 'crash' or 'crash' in info:
         return (True, 'raises on an in-domain input: ' + ans['error'][:200]) if 'error' in ans else (False, 'no exception')
     if 'error' in ans:
